@@ -134,3 +134,133 @@ class SymSet:
 
     def __repr__(self):
         return "<symset %d>" % len(self.items)
+
+
+def _has_symbolic(k):
+    if isinstance(k, (tuple, list, frozenset)):
+        return any(_has_symbolic(x) for x in k)
+    return _symbolic(k) or (hasattr(k, "sb") and _has_symbolic(getattr(k, "sb")))
+
+
+def _key_eq(a, b):
+    """Equality of dictionary keys with symbolic parts: a Python bool, deciding (forking) where the solver has to."""
+    if isinstance(a, tuple) or isinstance(b, tuple):
+        if not (isinstance(a, tuple) and isinstance(b, tuple)) or len(a) != len(b):
+            return False
+        for x, y in zip(a, b):
+            if not _key_eq(x, y):
+                return False
+        return True
+    if isinstance(a, SymBytes) or isinstance(b, SymBytes):
+        if not isinstance(a, (SymBytes, bytes, bytearray)) or not isinstance(b, (SymBytes, bytes, bytearray)) or len(a) != len(b):
+            return False
+        return bool(a == b)
+    try:
+        return bool(a == b)
+    except TypeError:
+        return False
+
+
+class SymKeyDict(dict):
+    """A dict for module-level state of the code under test (caches, registries) that may be keyed by symbolic values: entries are kept
+    in insertion order and looked up by solver-decided equality, so that 'the same key again' and 'another key' are both explored.
+    With concrete keys only it behaves like a dict."""
+
+    def __init__(self, *a, **k):
+        dict.__init__(self)
+        self._items = []
+        if a or k:
+            self.update(*a, **k)
+
+    def _find(self, key):
+        for i, (k, _) in enumerate(self._items):
+            if _key_eq(k, key):
+                return i
+        return -1
+
+    def __getitem__(self, key):
+        i = self._find(key)
+        if i < 0:
+            if hasattr(type(self), "__missing__"):
+                return type(self).__missing__(self, key)
+            raise KeyError(key)
+        return self._items[i][1]
+
+    def __setitem__(self, key, value):
+        i = self._find(key)
+        if i < 0:
+            self._items.append((key, value))
+        else:
+            self._items[i] = (self._items[i][0], value)
+
+    def __delitem__(self, key):
+        i = self._find(key)
+        if i < 0:
+            raise KeyError(key)
+        del self._items[i]
+
+    def __contains__(self, key):
+        return self._find(key) >= 0
+
+    def __len__(self):
+        return len(self._items)
+
+    def __iter__(self):
+        return iter([k for k, _ in self._items])
+
+    def __bool__(self):
+        return bool(self._items)
+
+    def __eq__(self, other):
+        return self is other
+
+    __hash__ = None
+
+    def keys(self):
+        return [k for k, _ in self._items]
+
+    def values(self):
+        return [v for _, v in self._items]
+
+    def items(self):
+        return list(self._items)
+
+    def get(self, key, default=None):
+        i = self._find(key)
+        return default if i < 0 else self._items[i][1]
+
+    def setdefault(self, key, default=None):
+        i = self._find(key)
+        if i < 0:
+            self._items.append((key, default))
+            return default
+        return self._items[i][1]
+
+    def pop(self, key, *default):
+        i = self._find(key)
+        if i < 0:
+            if default:
+                return default[0]
+            raise KeyError(key)
+        return self._items.pop(i)[1]
+
+    def popitem(self):
+        return self._items.pop()
+
+    def clear(self):
+        del self._items[:]
+
+    def update(self, *a, **k):
+        for src in a:
+            for kk, v in (src.items() if hasattr(src, "items") else src):
+                self[kk] = v
+        for kk, v in k.items():
+            self[kk] = v
+
+    def copy(self):
+        d = SymKeyDict()
+        d._items = list(self._items)
+        return d
+
+    def __repr__(self):
+        return "SymKeyDict(%d entries)" % len(self._items)
